@@ -6,7 +6,7 @@ open Primaite Primaite.Link
 Line protocol (one answer line per input line):
 
   link <bw> <enA> <enB>          append a wired link                      -> ok
-  chan <cap> <en0> <en1> ...     append a wireless channel                -> ok
+  chan <cap0,cap1,...> <en0> <en1> ...   append a wireless channel (hz); cap_i = capacity of interface i's frequency name -> ok
   tick                           Network.pre_timestep                     -> dump
   act <event tokens>             one top-level action (a forest)          -> records ` | ` dump
   dump                                                                    -> dump
@@ -30,7 +30,8 @@ def showRec (r : Rec) : String :=
 
 def dump (n : Net) : String :=
   " ".intercalate (n.links.map fun l => s!"L:{l.bw}:{l.load}:{showBool l.enA}{showBool l.enB}") ++ " / " ++
-  " ".intercalate (n.chans.map fun c => s!"C:{c.cap}:{c.load}:{"".intercalate (c.en.map showBool)}")
+  " ".intercalate (n.chans.map fun c =>
+    s!"C:{",".intercalate (c.caps.map toString)}:{c.load}:{"".intercalate (c.en.map showBool)}")
 
 mutual
 /-- Parse one event from the token list (fuel = number of tokens). -/
@@ -67,6 +68,11 @@ def parseEvs : Nat → List String → Option (List Ev × List String)
     | none => none
 end
 
+def parseNats (ws : List String) : Option (List Nat) :=
+  ws.foldr (fun w acc => match w.toNat?, acc with
+    | some b, some bs => some (b :: bs)
+    | _, _ => none) (some [])
+
 def parseBools (ws : List String) : Option (List Bool) :=
   ws.foldr (fun w acc => match parseBool w, acc with
     | some b, some bs => some (b :: bs)
@@ -77,9 +83,10 @@ def step' (n : Net) : List String → Net × String
     match bw.toNat?, parseBool a, parseBool b with
     | some bw, some a, some b => ({ n with links := n.links ++ [{ bw, load := 0, enA := a, enB := b }] }, "ok")
     | _, _, _ => (n, "bad-op")
-  | "chan" :: cap :: flags =>
-    match cap.toNat?, parseBools flags with
-    | some cap, some en => ({ n with chans := n.chans ++ [{ cap, load := 0, en }] }, "ok")
+  | "chan" :: caps :: flags =>
+    match parseNats (caps.splitOn ","), parseBools flags with
+    | some caps, some en =>
+      if caps.length == en.length then ({ n with chans := n.chans ++ [{ caps, load := 0, en }] }, "ok") else (n, "bad-op")
     | _, _ => (n, "bad-op")
   | ["tick"] => let r := step n .tick; (r.1, dump r.1)
   | "act" :: toks =>
